@@ -16,7 +16,7 @@ use std::{collections::HashMap, time::Duration};
 pub static DEF: PropDef = PropDef {
     id: "C19",
     level: "exploration",
-    total: |t| t.pick(1280, 40000),
+    total: |t| t.pick(1280, 20000),
     run,
     rule: "(a) generated description trees (1..3 top-level Networks sections with 1..4 networks of 1..4 ip/range/arbitrary-key entries, 1..6 machines with any options, 1..3 networks, 0..4 protocols and 1..4 applications carrying 0..6 arguments whose values are arbitrary printable ASCII without quote, backslash, closing bracket and 4-space runs, empty values included) are printed by the harness's own renderer in tab, 4-space and CRLF variants with the three machine sections in any order and optional Template lines, parsed by core_parser and compared with the tree; structurally broken renderings (one line indented one level too deep or too shallow, unknown section keyword, a required machine section missing, duplicate network id, duplicate argument) must yield Err with a non-empty message, never Ok and never a panic. (b) valid scenario descriptions (senders with counts 1..5 -> capture by count or by message, sender -> forward -> capture (the forwarder's remote port differing from its local port in two runs of three), ping_pong pair (each side on its own port likewise), several captures sharing a factory; receivers addressed by machine name, by address or a mix of both; the port written in decimal or hexadecimal independently on the sending and the receiving side; the spare network attached per machine; optional ARP protocol; auto-protocol on no, every or some machines, an auto-protocol machine leaving out IPv4 and/or ARP from its list; extra unused networks) are run with generate_and_run_sim on the paused clock: the result must be Some(Exited), and the process-wide H4 hook must have seen every described message as a UDP frame to the described address and port. Non-trivial = (a) tree with >=2 networks, >=3 machines and >=1 argument value containing a space or '='; (b) every run; distinct by text hash.",
     assumptions: &[
